@@ -42,6 +42,9 @@ def run(ctx):
     D.rule_loop_typestate(res, "C05-R10", m)
     n8 = D.rule_segment_ends_walk(res, "C05-R8", m)
     D.rule_segment_plumbing(res, "C05-R9", m)
+    res.rule("C05-R11", "the reassembler acts on what the wire says: the header getters it reads key, counter, version, message type, segment type and "
+                         "declared length through return exactly their wire fields, for all values (G4 with the layout oracle, shared with C12-R1)")
+    D.rule_header_reads(res, "C05-R11", ctx, fb)
     res.floor("C05-R8", 3, n8)
     res.floor("C05-R9", 12)
     res.floor("C05-R1", 5)  # one keyed operation per protocol case that touches the table
